@@ -53,3 +53,30 @@ def _c3(ob, con):
     from pyvc.core import Ref, uf, I
     self = z3.Const("self", Ref)
     return uf("Waveform._duration", Ref, I)(self) == 1
+
+
+def _ab():
+    from pyvc.core import Ref
+    return z3.Const("a!c18", Ref), z3.Const("b!c18", Ref)
+
+
+@cls("differ-in-min_duration")
+def _c18a(ob, con):
+    from contracts.lib import min_dur
+    a, b = _ab()
+    return min_dur(a) != min_dur(b)
+
+
+@cls("differ-in-custom_phase_jump_time")
+def _c18b(ob, con):
+    from contracts.lib import fget, fnone
+    a, b = _ab()
+    return z3.Or(fnone("Channel", "custom_phase_jump_time", a) != fnone("Channel", "custom_phase_jump_time", b),
+                 z3.And(z3.Not(fnone("Channel", "custom_phase_jump_time", a)), fget("Channel", "custom_phase_jump_time", a) != fget("Channel", "custom_phase_jump_time", b)))
+
+
+@cls("differ-in-max_duration")
+def _c18c(ob, con):
+    from contracts.lib import max_dur, max_dur_none
+    a, b = _ab()
+    return z3.Or(max_dur_none(a) != max_dur_none(b), z3.And(z3.Not(max_dur_none(a)), max_dur(a) != max_dur(b)))
